@@ -29,15 +29,16 @@ def orders(max_rails, reduced=False):
 def outcomes(order, allow_rewrite=True):
     """effective verdict vectors: positions after a reject are irrelevant (and must not run)"""
     res = []
-    kinds = "ARW" if allow_rewrite else "AR"
+    # N: the rail's action rejects with None instead of False (`if not $r`); parameterised library rails return a dict
+    kinds = "ARWN" if allow_rewrite else "AR"
 
     def rec(i, acc):
         if i == len(order):
             res.append(tuple(acc))
             return
         for k in kinds:
-            if k == "R":
-                res.append(tuple(acc + ["R"]))
+            if k in "RN":
+                res.append(tuple(acc + [k]))
             else:
                 rec(i + 1, acc + [k])
 
@@ -97,8 +98,8 @@ def explore_world(task):
             rejected_by = None
             for r, k in zip(order, oc):
                 expected_calls.append((r, cur))
-                if k == "R":
-                    verdicts[r] = "R"
+                if k in "RN":
+                    verdicts[r] = k
                     rejected_by = r
                     break
                 if k == "W":
@@ -193,6 +194,7 @@ OPTION_FORMS = {
     "log-only": (lambda: {"log": {"activated_rails": True}}, True),
     "input-true": (lambda: {"rails": {"input": True}}, True),
     "list-all": (lambda: {"rails": ["input", "dialog", "retrieval", "output"]}, True),
+    "input-list-of-names": (lambda: {"rails": {"input": ["in1"]}}, True),   # Union[bool, List[str]]: every configured rail is named
     "input-false": (lambda: {"rails": {"input": False}}, False),
     "list-without-input": (lambda: {"rails": ["dialog", "retrieval", "output"]}, False),
 }
@@ -213,8 +215,8 @@ def explore_state_mode(task):
             res["conversations"] += 1
             return
         for form, (mk, selected) in OPTION_FORMS.items():
-            for in_v in ("A", "R"):
-                if not selected and in_v == "R":
+            for in_v in ("A", "R", "N"):
+                if not selected and in_v != "A":
                     continue
                 nonce[0] += 1
                 user_text = f"U{t}x{nonce[0]}q hello"
@@ -237,7 +239,7 @@ def explore_state_mode(task):
                 if selected:
                     if calls != [("in1", user_text)]:
                         bad("input-rail-sequence", f"options form `{form}` selects the input rails; rails invoked {calls}, expected [('in1', {user_text!r})]; reply {turn.text!r}")
-                    elif in_v == "R":
+                    elif in_v != "A":
                         res["rejections"] += 1
                         if turn.text != "REFUSED-in1":
                             bad("reply-is-not-the-refusal", f"in1 rejected; reply {turn.text!r}")
@@ -383,7 +385,7 @@ def replay(rp):
     for step in rp["history"]:
         verdicts = {"out1": "A"}
         for r, k in zip(rp["order"], step["outcome"]):
-            verdicts[r] = {"A": "A", "R": "R"}.get(k, ("W", f"RW{r} rewritten"))
+            verdicts[r] = {"A": "A", "R": "R", "N": "N"}.get(k, ("W", f"RW{r} rewritten"))
         msgs = msgs + [{"role": "user", "content": step["user"]}]
         turn = rw.run_turn(world, msgs, verdicts, llm_fn_for(step["path"]))
         print(step, "->", turn.text, "| rails:", [(a["rail"], a["text"]) for a in turn.actions], "| llm:", [str(c["task"]) for c in turn.llm_calls])
